@@ -509,8 +509,10 @@ class CallMixin:
                 if all(z3.is_true(p) for p in ps):
                     return [("val", len(ps), st)]
                 return [("val", Sym("int", z3.Sum([z3.If(p, 1, 0) for p in ps])), st)]
-            if k in ("glist", "deque"):
+            if k in ("glist", "deque", "rlist", "rqueue"):
                 return [("val", Sym("int", s["len"]), st)]
+            if k == "zseq":
+                return [("val", Sym("int", z3.Length(s["seq"])), st)]
             if k in self.container_models:
                 return self.container_models[k].len(self, st, v)
         if isinstance(v, Opt):
